@@ -133,36 +133,26 @@ pub mod eng {
 	pub struct Replay {
 		pub inputs: Vec<(u32, u8)>,
 		pub cursor: usize,
-		pub trace: Vec<(u32, u32, u32)>,
-		pub violations: Vec<u32>,
-		pub diverged: bool,
 	}
-	pub static REPLAY: Mutex<Replay> = Mutex::new(Replay {
-		inputs: Vec::new(),
-		cursor: 0,
-		trace: Vec::new(),
-		violations: Vec::new(),
-		diverged: false,
-	});
+	pub static REPLAY: Mutex<Replay> = Mutex::new(Replay { inputs: Vec::new(), cursor: 0 });
 	fn st() -> std::sync::MutexGuard<'static, Replay> {
 		match REPLAY.lock() {
 			Ok(g) => g,
 			Err(p) => p.into_inner(),
 		}
 	}
+	// everything is printed eagerly (stdout is line buffered) so that an abort keeps the trace
 	pub fn any_u8(tag: u32) -> u8 {
 		let mut r = st();
 		let c = r.cursor;
+		r.cursor = c + 1;
 		if c < r.inputs.len() {
 			let (t, v) = r.inputs[c];
-			r.cursor = c + 1;
 			if t != tag {
-				r.diverged = true;
 				println!("DIVERGED input#{} expected-tag={} got-tag={}", c, t, tag);
 			}
 			v
 		} else {
-			r.diverged = true;
 			println!("DIVERGED input#{} exhausted tag={}", c, tag);
 			0
 		}
@@ -174,28 +164,17 @@ pub mod eng {
 		}
 	}
 	pub fn event(code: u32, a: u32, b: u32) {
-		st().trace.push((code, a, b));
+		println!("EV {} {} {}", code, a, b);
 	}
 	pub fn check_fn(c: bool, code: u32) {
 		if !c {
-			let mut r = st();
-			r.violations.push(code);
-			let n = r.trace.len() as u32;
-			r.trace.push((999, code, n));
+			println!("EV 999 {} 0", code);
+			println!("VIOLATED {}", code);
 		}
 	}
 	pub fn dump() {
 		let r = st();
-		for (c, a, b) in &r.trace {
-			println!("EV {} {} {}", c, a, b);
-		}
-		for v in &r.violations {
-			println!("VIOLATED {}", v);
-		}
 		println!("INPUTS-USED {} OF {}", r.cursor, r.inputs.len());
-		if r.diverged {
-			println!("DIVERGED");
-		}
 	}
 	pub fn finish_and_exit(code: i32) -> ! {
 		dump();
@@ -203,11 +182,12 @@ pub mod eng {
 		std::process::exit(code)
 	}
 	pub fn fatal() -> ! {
-		println!("FATAL");
-		finish_and_exit(4)
+		println!("OUTCOME fatal");
+		dump();
+		std::process::exit(4)
 	}
 	pub fn inject_panic() -> ! {
-		// resume_unwind avoids the panic hook's backtrace noise
+		// resume_unwind skips the panic hook
 		std::panic::resume_unwind(Box::new("verif injected panic"))
 	}
 }
@@ -262,6 +242,7 @@ pub fn any_below(tag: u32, n: u8) -> u8 {
 pub const NO_FAULT: u32 = u32::MAX;
 pub const NOID: u8 = 0xff;
 pub const LOG_CAP: usize = 24;
+pub const TAB_CAP: usize = 12;
 
 pub const ST_FREE: u8 = 0;
 pub const ST_T0: u8 = 1;
@@ -297,6 +278,10 @@ pub struct World {
 	pub log: [Cell<u16>; LOG_CAP],
 	/// locks (bit mask) whose hold may legitimately persist across a wait (owned units)
 	pub wait_ok_mask: Cell<u32>,
+	/// owner table by lock id: mutex: st; rwlock: x | s0 << 2 | se << 5
+	pub tab: [Cell<u8>; TAB_CAP],
+	/// protected-data shadow: last value written under an exclusive hold, per lock id
+	pub closure_runs: Cell<u32>,
 }
 
 pub struct SyncWorld(pub World);
@@ -304,6 +289,8 @@ unsafe impl Sync for SyncWorld {}
 
 #[allow(clippy::declare_interior_mutable_const)]
 const C16: Cell<u16> = Cell::new(0);
+#[allow(clippy::declare_interior_mutable_const)]
+const C8: Cell<u8> = Cell::new(0);
 
 pub static WORLD: SyncWorld = SyncWorld(World {
 	adversarial: Cell::new(false),
@@ -328,6 +315,8 @@ pub static WORLD: SyncWorld = SyncWorld(World {
 	log_len: Cell::new(0),
 	log: [C16; LOG_CAP],
 	wait_ok_mask: Cell::new(0),
+	tab: [C8; TAB_CAP],
+	closure_runs: Cell::new(0),
 });
 
 #[inline]
@@ -360,6 +349,28 @@ impl World {
 		self.log_on.set(false);
 		self.log_len.set(0);
 		self.wait_ok_mask.set(0);
+		self.closure_runs.set(0);
+		let mut i = 0;
+		while i < TAB_CAP {
+			self.tab[i].set(0);
+			i += 1;
+		}
+	}
+	/// packed owner table
+	pub fn snapshot(&self) -> u128 {
+		let mut v: u128 = 0;
+		let mut i = 0;
+		while i < TAB_CAP {
+			v |= (self.tab[i].get() as u128) << (8 * i);
+			i += 1;
+		}
+		v
+	}
+	pub fn is_free(&self, id: u8) -> bool {
+		self.tab[id as usize].get() == 0
+	}
+	pub fn no_writer(&self, id: u8) -> bool {
+		self.tab[id as usize].get() & 3 == 0
 	}
 	#[inline]
 	pub fn held_any(&self) -> bool {
@@ -469,6 +480,13 @@ unsafe impl Send for AuditMutex {}
 
 impl AuditMutex {
 	#[inline]
+	pub fn sync(&self) {
+		let id = self.id.get() as usize;
+		if id < TAB_CAP {
+			w().tab[id].set(self.st.get());
+		}
+	}
+	#[inline]
 	fn bit(&self) -> u32 {
 		1u32 << (self.id.get() as u32 & 31)
 	}
@@ -503,6 +521,7 @@ unsafe impl lock_api::RawMutex for AuditMutex {
 		self.st.set(ST_T0);
 		w.held_x.set(w.held_x.get() | self.bit());
 		w.push_log(K_LOCK_X, id);
+		self.sync();
 		eng::event(E_RES, K_LOCK_X, 1);
 	}
 
@@ -517,6 +536,7 @@ unsafe impl lock_api::RawMutex for AuditMutex {
 			w.held_x.set(w.held_x.get() | self.bit());
 			w.push_log(K_TRY_X, id);
 		}
+		self.sync();
 		eng::event(E_RES, K_TRY_X, ok as u32);
 		ok
 	}
@@ -532,6 +552,7 @@ unsafe impl lock_api::RawMutex for AuditMutex {
 			w.held_x.set(w.held_x.get() & !self.bit());
 			w.push_log(K_UNLOCK_X, id);
 		}
+		self.sync();
 		eng::event(E_RES, K_UNLOCK_X, 1);
 	}
 }
@@ -552,6 +573,13 @@ unsafe impl Sync for AuditRwLock {}
 unsafe impl Send for AuditRwLock {}
 
 impl AuditRwLock {
+	#[inline]
+	pub fn sync(&self) {
+		let id = self.id.get() as usize;
+		if id < TAB_CAP {
+			w().tab[id].set(self.x.get() | (self.s0.get() << 2) | (self.se.get() << 5));
+		}
+	}
 	#[inline]
 	fn bit(&self) -> u32 {
 		1u32 << (self.id.get() as u32 & 31)
@@ -615,6 +643,7 @@ unsafe impl lock_api::RawRwLock for AuditRwLock {
 		self.s0.set(self.s0.get() + 1);
 		w.held_s.set(w.held_s.get() | self.bit());
 		w.push_log(K_LOCK_S, id);
+		self.sync();
 		eng::event(E_RES, K_LOCK_S, 1);
 	}
 
@@ -629,6 +658,7 @@ unsafe impl lock_api::RawRwLock for AuditRwLock {
 			w.held_s.set(w.held_s.get() | self.bit());
 			w.push_log(K_TRY_S, id);
 		}
+		self.sync();
 		eng::event(E_RES, K_TRY_S, ok as u32);
 		ok
 	}
@@ -646,6 +676,7 @@ unsafe impl lock_api::RawRwLock for AuditRwLock {
 			}
 			w.push_log(K_UNLOCK_S, id);
 		}
+		self.sync();
 		eng::event(E_RES, K_UNLOCK_S, 1);
 	}
 
@@ -665,6 +696,7 @@ unsafe impl lock_api::RawRwLock for AuditRwLock {
 		self.x.set(ST_T0);
 		w.held_x.set(w.held_x.get() | self.bit());
 		w.push_log(K_LOCK_X, id);
+		self.sync();
 		eng::event(E_RES, K_LOCK_X, 1);
 	}
 
@@ -679,6 +711,7 @@ unsafe impl lock_api::RawRwLock for AuditRwLock {
 			w.held_x.set(w.held_x.get() | self.bit());
 			w.push_log(K_TRY_X, id);
 		}
+		self.sync();
 		eng::event(E_RES, K_TRY_X, ok as u32);
 		ok
 	}
@@ -694,6 +727,7 @@ unsafe impl lock_api::RawRwLock for AuditRwLock {
 			w.held_x.set(w.held_x.get() & !self.bit());
 			w.push_log(K_UNLOCK_X, id);
 		}
+		self.sync();
 		eng::event(E_RES, K_UNLOCK_X, 1);
 	}
 }
@@ -728,6 +762,7 @@ pub fn pre_m(m: &M) -> u8 {
 	let id = raw_m(m).id.get();
 	let v = any_below(T_PRE | id as u32, 2);
 	raw_m(m).st.set(if v == 1 { ST_ENV } else { ST_FREE });
+	raw_m(m).sync();
 	v
 }
 /// symbolic quiescent pre-state: rwlock free (0), read-held (1) or write-held (2) by the environment
@@ -737,6 +772,7 @@ pub fn pre_r(r: &R) -> u8 {
 	let raw = raw_r(r);
 	raw.x.set(if v == 2 { ST_ENV } else { ST_FREE });
 	raw.se.set(if v == 1 { 1 } else { 0 });
+	raw.sync();
 	v
 }
 /// compact owner-table entry of one lock
